@@ -396,8 +396,8 @@ def run_random_case(ctx, kind_, idx):
                 relc = loose * (1e-9 + tol.cond_x(xa) + tol.cond_x(xb)) * 50
                 ysc = max(float(np.max(np.abs(ya))), float(np.max(np.abs(wv.get_reference()[1]))), 1e-300)
                 xsc = max(float(np.max(np.abs(xa))), 1e-300)
-                if np.shape(xa) != np.shape(xb) or np.max(np.abs(np.asarray(xa) - xb)) > 1e-9 * xsc or \
-                        np.max(np.abs(np.asarray(ya) - yb)) > relc * ysc:
+                if np.shape(xa) != np.shape(xb) or not np.max(np.abs(np.asarray(xa) - xb)) <= 1e-9 * xsc or \
+                        not np.max(np.abs(np.asarray(ya) - yb)) <= relc * ysc:
                     ctx.violation("map_does_not_commute_with_pipeline", cid,
                                   {"map": [op, arg], "history": hist2,
                                    "max_dy": float(np.max(np.abs(np.asarray(ya) - yb))) if np.shape(ya) == np.shape(yb) else None,
